@@ -17,8 +17,25 @@ def run(ctx):
     if not hc.ensure_builds(ctx): hc.finish(ctx, 'builds failed')
     n = 500 if ctx.quick() else 12000
     H, impl, model, dis, hits = hc.run_profile(ctx, gen, n, trigger=trigger, claims=lambda op, a, b: op in ('RC', 'DE'))
+    if not hits:
+        # several threads re-encapsulating the SAME encapsulation with one shared instance at the same moment
+        import conc
+        t, k = (8, 6) if ctx.quick() else (16, 60)
+        vals, dup, fails, done = conc.run(ctx, ['recaps', t, k])
+        tot = sum(len(v) for v in vals.values()); ctx.evaluations += tot
+        ctx.ob('freshness', f'concd recaps {t} {k}: {t} threads x {k} concurrent re-encapsulations of one encapsulation on one instance: {tot} secrets / tags / traps pairwise distinct, audience checked on every result', not dup and not fails and len(done) == t, (str(dup)[:300] + ' '.join(fails[:2]))[:600])
+        if fails or len(done) != t: vf.violation(ctx, 'concurrent re-encapsulation: ' + (fails[0] if fails else f'only {len(done)} of {t} threads finished'), {'concd': f'recaps {t} {k}'})
+        if dup: vf.violation(ctx, f'two concurrent re-encapsulations returned the same {sorted(dup)[0]}', {'concd': f'recaps {t} {k}', 'duplicates': {a: b[0] for a, b in dup.items()}})
     hc.vm_crosscheck(ctx, H, model)
     hc.finish(ctx, f'{n} random histories: multi-target encapsulations under any earlier public key, then rekeys, prunes, disables, deletions, then recaps under current and older public keys, '
               'then decapsulation of the result by every key before and after refresh; non-trivial = a recaps preceded by a rekey/prune/disable/deletion and followed by decapsulations')
 
-replay = hc.replay
+def replay(ctx, path):
+    import json
+    rep = json.load(open(path))
+    if 'concd' not in rep: return hc.replay(ctx, path)
+    import conc
+    vf.build_harness(ctx)
+    vals, dup, fails, done = conc.run(ctx, rep['concd'].split(' '))
+    print('\n'.join(fails[:5])); print('duplicates:', dup)
+    return 1 if (fails or dup) else 0
